@@ -75,11 +75,16 @@ def _eq(a, b):
     return a == b
 
 
-def mk_key(ex, K, name):
+def mk_key(ex, K, name, allow_uncompressed=False):
     k = K.Key.__new__(K.Key)
-    k.public_byte = b'\x02' + ex.bytes(name + '_x', 32)
+    # (pay-to-pubkey outputs of the early chain carry 65-byte uncompressed keys: both serializations for that kind)
+    if allow_uncompressed and ex.choose(name + '_form', ['compressed', 'uncompressed']) == 'uncompressed':
+        k.public_byte = b'\x04' + ex.bytes(name + '_x', 32) + ex.bytes(name + '_y', 32)
+        k.compressed = False
+    else:
+        k.public_byte = b'\x02' + ex.bytes(name + '_x', 32)
+        k.compressed = True
     k._hash160 = ex.bytes(name + '_h160', 20)
-    k.compressed = True
     k.is_private = False
     k.public_hex = None
     return k
@@ -128,7 +133,7 @@ def mk_input(ex, T, K, idx, kind, nkeys):
         if ex.choose('prevout_script%d' % idx, ['not-given', 'given']) == 'given':
             i.locking_script = b'\xa9\x14' + ex.bytes('p2sh_h%d' % idx, 20) + b'\x87'
     n = nkeys if multisig else 1
-    i.keys = [mk_key(ex, K, 'k%d_%d' % (idx, j)) for j in range(n)]
+    i.keys = [mk_key(ex, K, 'k%d_%d' % (idx, j), allow_uncompressed=(kind == 'p2pk')) for j in range(n)]
     m = ex.int('m%d' % idx, 1, n) if (multisig and n > 1) else 1
     i.sigs_required = m
     if multisig:
